@@ -183,7 +183,7 @@ def run(ctx):
             ctx.ob("R7.6", "evaluate_function_call|%s-quotient-validated#%d" % (nm, n_rem), bool(validated),
                    "a result of this %s is passed to validate_literal before the components become constants" % nm if validated else
                    "no component of this %s is validated against the type range (signed MIN / -1 overflows)" % nm, c.where())
-    ctx.floor("remainder computations in the semantic evaluator", n_rem, 2)
+    ctx.floor("remainder computations in the semantic evaluator", n_rem, 1)
 
     # ---------------- R7.2 division guarded by the zero test
     divs = [c for c in efc.calls() if c.name() in FAMILY and ("BigInt" in c.path or "bigint" in c.path or "num_integer" in c.path
